@@ -127,6 +127,10 @@ func (vt *Model) decset(params [][]int) {
 		case 1049:
 			vt.decsc()
 			vt.activeScreen = vt.altScreen
+			if !vt.mode.smcup {
+				// entering the alternate screen shows it cleared
+				vt.ed(2)
+			}
 			vt.mode.smcup = true
 			// Enable altScroll in the alt screen. This is only used
 			// if the application doesn't enable mouse
